@@ -6,3 +6,11 @@ package syntax
 //@ lemma lang_syntaxServiceValue(x string)
 //@   property C11 C02
 //@   ensures [equiv] matches(x, regexServiceValue) <==> inLang(x, serviceValueL())
+
+// C14: quoted and unquoted forms of an import denote the same path; "." (quoted) is the current package.
+//@ func SanitizeImport pure
+//@   property C14
+//@   ensures [unquoted] !hasPrefix(i, "\"") && !hasSuffix(i, "\"") ==> result == (i == "." ? "" : i)
+//@   ensures [quoted] len(i) >= 2 && hasPrefix(i, "\"") && hasSuffix(i, "\"") && substr(i, 1, len(i) - 2) != "."
+//@             && !hasPrefix(substr(i, 1, len(i) - 2), "\"") && !hasSuffix(substr(i, 1, len(i) - 2), "\"") ==> result == substr(i, 1, len(i) - 2)
+//@   ensures [current_package] i == "\".\"" ==> result == ""
